@@ -27,19 +27,28 @@ Definition main_upd (c : cfg) (s s' : state) (n : nat) (d : list nat) : Prop :=
    \/
    (ph r' = PMain /\ d <> [] /\ existsb (crit_exc c s) d = false /\
     ndone r' = ndone r + nonforever c d /\ ndone r' <> nfinite c n /\
-    exists new, pend r' = diff (pend r) d ++ new /\ NoDup new /\ (forall x, In x new <-> eligible c s n d x))).
+    exists new, pend r' = diff (pend r) d ++ new /\ NoDup new /\ (forall x, In x new <-> eligible c s n d x) /\
+      (forall x, In x new -> st (Jb s' x) = Created))).
 
 (* an actor step other than a main wake keeps the bookkeeping and follows the phase order *)
 Definition kept (s s' : state) (m : nat) : Prop :=
   seen (Rn s' m) = seen (Rn s m) /\ ndone (Rn s' m) = ndone (Rn s m) /\
+  (exists f, pend (Rn s' m) = filter f (pend (Rn s m))) /\
   (forall w, ph (Rn s m) = PShut w -> ph (Rn s' m) = PShut w \/ ph (Rn s' m) = POver) /\
   (forall w, ph (Rn s m) = PTidy w -> ph (Rn s' m) = PTidy w \/ ph (Rn s' m) = PShut w \/ ph (Rn s' m) = POver) /\
   (ph (Rn s m) = PMain -> ph (Rn s' m) = PCTidy \/ ph (Rn s' m) = POver) /\
-  (ph (Rn s m) = PCTidy -> ph (Rn s' m) = PCTidy \/ ph (Rn s' m) = POver).
+  (ph (Rn s m) = PCTidy -> ph (Rn s' m) = PCTidy \/ ph (Rn s' m) = POver) /\
+  ph (Rn s m) <> POver.
+
+Lemma filter_true_id (l : list nat) : l = filter (fun _ => true) l.
+Proof. induction l as [|a l IH]; simpl; congruence. Qed.
 
 Lemma kept_over s s' m : ph (Rn s' m) = POver -> seen (Rn s' m) = seen (Rn s m) ->
-  ndone (Rn s' m) = ndone (Rn s m) -> kept s s' m.
-Proof. intros H1 H2 H3. unfold kept. rewrite H1. repeat split; auto. Qed.
+  ndone (Rn s' m) = ndone (Rn s m) -> pend (Rn s' m) = pend (Rn s m) -> ph (Rn s m) <> POver -> kept s s' m.
+Proof.
+  intros H1 H2 H3 H4 H5. unfold kept. rewrite H1. repeat split; auto.
+  exists (fun _ => true). rewrite H4. apply filter_true_id.
+Qed.
 
 (* [actor e m]: e is a control event of the run of scheduler m *)
 Definition actor (e : event) (m : nat) : Prop :=
@@ -63,9 +72,11 @@ Inductive reff (c : cfg) (s s' : state) (m : nat) (act : Prop) : Prop :=
     (if rootb m then ph (Rn s m) = PIdle else st (Jb s m) = Created) ->
     (rootb m = false -> run_post s' m) ->
     (ph (Rn s' m) = PMain \/ ph (Rn s' m) = POver) ->
-    (forall y, In y (pend (Rn s' m)) -> In y (members c m)) ->
+    (forall y, In y (pend (Rn s' m)) -> In y (members c m) /\ st (Jb s' y) = Created) ->
+    NoDup (pend (Rn s' m)) ->
     seen (Rn s' m) = [] -> ndone (Rn s' m) = 0 -> qsz (Rn s' m) = 0 ->
     fto (Rn s' m) = false -> fcr (Rn s' m) = false -> rcanc (Rn s' m) = false ->
+    (ph (Rn s' m) = PMain -> forall y, In y (members c m) -> reqs c y = [] -> In y (pend (Rn s' m))) ->
     reff c s s' m act
 | RE_actor :
     act ->
@@ -166,7 +177,7 @@ Proof.
         set (cand := filter _ (members c n)). set (new := filter _ cand).
         split; [exact HphM|]. split; [exact Hne|]. split; [reflexivity|]. split; [reflexivity|].
         split; [exact Ecnt|].
-        exists new. split; [reflexivity|]. split.
+        exists new. split; [reflexivity|]. split; [|split].
         -- unfold new, cand. apply NoDup_filter. apply NoDup_filter. unfold members.
            apply NoDup_filter. apply NoDup_seqn.
         -- intros x. unfold new, cand, eligible. rewrite !filter_In. split.
@@ -176,6 +187,7 @@ Proof.
               apply memb_In. exact Hq2.
            ++ intros (Hm & Hst & Hd & q & Hq1 & Hq2). rewrite Hst. split; [|exact Hd].
               split; [exact Hm|]. apply existsb_exists. exists q. split; auto. apply memb_In. exact Hq2.
+        -- intros x Hx. cbn [Jb setR]. rewrite Jb_mapJ. apply memb_In in Hx. fold cand new. rewrite Hx. reflexivity.
 Qed.
 
 Lemma reff_begin c s n m : wf c = true -> sched_id c n = true ->
@@ -209,6 +221,8 @@ Proof.
         apply Nat.eqb_neq in Hr0. rewrite Hr0, Nat.eqb_refl. cbn [st ran]. rewrite E. auto.
       * rewrite E. right. reflexivity.
       * rewrite E. intros y [].
+      * rewrite E. constructor.
+      * rewrite E. discriminate.
     + apply RE_q; [|apply neq_vac; exact Hmn]. eapply same_but_q_trans; [apply Hq0|].
       eapply same_but_q_trans; [|apply Rn_job_leave_q].
       rewrite Rn_setR_other by exact Hmn. apply same_but_q_refl.
@@ -224,7 +238,13 @@ Proof.
         cbn [Jb setR]. rewrite Jb_mapJ, Hne. unfold s0. apply rootb_false in Hr0.
         apply Nat.eqb_neq in Hr0. rewrite Hr0. cbn [Jb setR setJ]. rewrite upd_same. reflexivity.
       * rewrite Rn_setR_same. left. reflexivity.
-      * rewrite Rn_setR_same. cbn [pend]. intros y Hy. unfold entry in Hy. apply filter_In in Hy. tauto.
+      * rewrite Rn_setR_same. cbn [pend]. intros y Hy. split.
+        -- unfold entry in Hy. apply filter_In in Hy. tauto.
+        -- cbn [Jb setR]. rewrite Jb_mapJ. apply memb_In in Hy. rewrite Hy. reflexivity.
+      * rewrite Rn_setR_same. cbn [pend]. unfold entry. apply NoDup_filter. unfold members.
+        apply NoDup_filter. apply NoDup_seqn.
+      * intros _ y Hy Hq. rewrite Rn_setR_same. cbn [pend]. unfold entry. apply filter_In.
+        split; [exact Hy|]. rewrite Hq. reflexivity.
     + apply RE_q; [|apply neq_vac; exact Hmn]. rewrite Rn_setR_other by exact Hmn. rewrite Rn_mapJ. apply Hq0.
 Qed.
 
@@ -279,7 +299,7 @@ Proof.
   - rewrite Hph. discriminate.
   - exact P1.
   - intros Hn0. left. rewrite Hst. split; [apply Hr; exact Hn0|]. auto.
-  - intros y Hy. destruct U3 as [(w & _ & Hp & _)|(_ & _ & _ & _ & _ & new & Hp & _ & Hnew)].
+  - intros y Hy. destruct U3 as [(w & _ & Hp & _)|(_ & _ & _ & _ & _ & new & Hp & _ & Hnew & _)].
     + rewrite Hp in Hy. apply In_diff in Hy. left. tauto.
     + rewrite Hp in Hy. apply in_app_iff in Hy. destruct Hy as [Hy|Hy].
       * apply In_diff in Hy. left. tauto.
@@ -290,10 +310,10 @@ Proof.
 Qed.
 
 Lemma reff_end_cancelled c s s0 n m :
-  Rn s0 = Rn s -> (n <> 0 -> st (Jb s n) = Running) -> ph (Rn s n) <> PIdle ->
+  Rn s0 = Rn s -> (n <> 0 -> st (Jb s n) = Running) -> ph (Rn s n) <> PIdle -> ph (Rn s n) <> POver ->
   reff c s (fst (end_cancelled c n s0)) m (m = n).
 Proof.
-  intros E Hr Hph. destruct (Nat.eq_dec m n) as [->|Hmn].
+  intros E Hr Hph Hpo. destruct (Nat.eq_dec m n) as [->|Hmn].
   - destruct (Rn_end_cancelled_n c n s0) as [H1 H2].
     assert (P5 : ph (Rn s n) <> PMain -> ph (Rn (fst (end_cancelled c n s0)) n) <> PMain)
       by (intros _; rewrite H1; discriminate).
@@ -301,7 +321,7 @@ Proof.
                  (ph (Rn s n) = PCTidy \/ rcanc (Rn s n) = true) \/ cp (Jb s n) = true)
       by (apply cmode_same; [rewrite H1; discriminate|rewrite rcanc_end_cancelled, E; reflexivity]).
     assert (P7 : kept s (fst (end_cancelled c n s0)) n).
-    { destruct (seen_end_cancelled c n s0) as [S1 S2]. apply kept_over; [exact H1|rewrite S1, E|rewrite S2, E]; reflexivity. }
+    { destruct (seen_end_cancelled c n s0) as [S1 S2]. apply kept_over; [exact H1|rewrite S1, E; reflexivity|rewrite S2, E; reflexivity|rewrite H2, E; reflexivity|exact Hpo]. }
     apply RE_actor; auto.
     + rewrite H1. discriminate.
     + intros Hn0. right. rewrite Jb_end_cancelled. apply Nat.eqb_neq in Hn0.
@@ -311,10 +331,10 @@ Proof.
 Qed.
 
 Lemma reff_finish_run c s s0 n w r cu m :
-  Rn s0 = Rn s -> (n <> 0 -> st (Jb s n) = Running) -> ph (Rn s n) <> PIdle ->
+  Rn s0 = Rn s -> (n <> 0 -> st (Jb s n) = Running) -> ph (Rn s n) <> PIdle -> ph (Rn s n) <> POver ->
   reff c s (fst (finish_run c n w r cu s0)) m (m = n).
 Proof.
-  intros E Hr Hph. destruct (Nat.eq_dec m n) as [->|Hmn].
+  intros E Hr Hph Hpo. destruct (Nat.eq_dec m n) as [->|Hmn].
   - destruct (Rn_finish_run_n c n w r cu s0) as [H1 H2].
     assert (P5 : ph (Rn s n) <> PMain -> ph (Rn (fst (finish_run c n w r cu s0)) n) <> PMain)
       by (intros _; rewrite H1; discriminate).
@@ -322,7 +342,7 @@ Proof.
                  (ph (Rn s n) = PCTidy \/ rcanc (Rn s n) = true) \/ cp (Jb s n) = true)
       by (apply cmode_same; [rewrite H1; discriminate|rewrite rcanc_finish_run, E; reflexivity]).
     assert (P7 : kept s (fst (finish_run c n w r cu s0)) n).
-    { destruct (seen_finish_run c n w r cu s0) as [S1 S2]. apply kept_over; [exact H1|rewrite S1, E|rewrite S2, E]; reflexivity. }
+    { destruct (seen_finish_run c n w r cu s0) as [S1 S2]. apply kept_over; [exact H1|rewrite S1, E; reflexivity|rewrite S2, E; reflexivity|rewrite H2, E; reflexivity|exact Hpo]. }
     apply RE_actor; auto.
     + rewrite H1. discriminate.
     + intros Hn0. right. rewrite Jb_finish_run. apply Nat.eqb_neq in Hn0.
@@ -340,6 +360,7 @@ Proof.
   - apply reff_end_cancelled; auto.
     + intros Hn0. apply Hr. exact Hn0.
     + rewrite Hph. discriminate.
+    + rewrite Hph. discriminate.
   - destruct (Nat.eq_dec m n) as [->|Hmn].
     + assert (Ephn : ph (Rn (fst (shutdown_start c n true (set_phase s n (PShut (why_of s n))))) n)
                      = PShut (why_of s n)).
@@ -353,9 +374,9 @@ Proof.
               rewrite Rn_shutdown_start, ph_set_phase, Nat.eqb_refl; reflexivity]);
         assert (P7 : kept s S' n)
       end.
-      { unfold kept. rewrite Ephn. rewrite Rn_shutdown_start, ph_set_phase, Nat.eqb_refl. cbn [seen ndone].
+      { unfold kept. rewrite Ephn. rewrite Rn_shutdown_start, ph_set_phase, Nat.eqb_refl. cbn [seen ndone pend].
         unfold why_of. rewrite Hph.
-        repeat split; auto; try (intros; discriminate).
+        repeat split; auto; try (intros; discriminate); try (exists (fun _ => true); apply filter_true_id).
         intros w' Hw'. inversion Hw'; subst. auto. }
       apply RE_actor; auto.
       * intros Hn0. apply Hr. exact Hn0.
@@ -370,6 +391,9 @@ Proof.
 Qed.
 
 Lemma sd_inline_ph s n : sd_inline s n = true -> ph (Rn s n) <> PIdle.
+Proof. unfold sd_inline. destruct (ph (Rn s n)); discriminate. Qed.
+
+Lemma sd_inline_ph2 s n : sd_inline s n = true -> ph (Rn s n) <> POver.
 Proof. unfold sd_inline. destruct (ph (Rn s n)); discriminate. Qed.
 
 Lemma Rn_react_shut_wake c n p s : Rn (fst (fst (react_shut_wake c n p s))) = Rn s.
@@ -392,6 +416,7 @@ Proof.
     apply HF.
     + intros Hn0. apply Hr. exact Hn0.
     + apply sd_inline_ph. exact Ein.
+    + apply sd_inline_ph2. exact Ein.
   - apply RE_q; cbn [fst]; [rewrite Rn_hdone, E1; apply same_but_q_refl|].
     intros _. rewrite Jb_hdone, EJ. auto.
 Qed.
@@ -407,6 +432,7 @@ Proof.
   - destruct (run_alive_false _ _ _ (Hi eq_refl)) as (Hs & Hn & Hr).
     assert (Hr' : n <> 0 -> st (Jb s n) = Running) by (intros Hn0; apply Hr; exact Hn0).
     pose proof (sd_inline_ph _ _ Ein) as Hph.
+    pose proof (sd_inline_ph2 _ _ Ein) as Hpo.
     destruct (rcanc (Rn s n)).
     + assert (Hcan : reff c s (fst (end_cancelled c n s1)) m (m = n))
         by (apply reff_end_cancelled; auto).
@@ -432,11 +458,13 @@ Proof.
   intros Ha Hph. destruct (run_alive_true _ _ _ Ha) as (Hs & Hn & Hn0 & Hst & Hcp).
   unfold react_cancel_main.
   set (u := filter _ (pend (Rn s n))).
+  assert (Eu0 : u = filter (fun j => negb (jfin s j)) (pend (Rn s n))) by reflexivity.
   assert (Hu : forall y, In y u -> In y (pend (Rn s n))).
   { intros y Hy. unfold u in Hy. apply filter_In in Hy. tauto. }
   destruct u as [|u0 u'] eqn:Eu.
   - apply reff_end_cancelled; auto.
     + apply Rn_clear_cp.
+    + rewrite Hph. discriminate.
     + rewrite Hph. discriminate.
   - rewrite <- Eu in *. cbn [fst].
     destruct (Nat.eq_dec m n) as [->|Hmn].
@@ -448,8 +476,9 @@ Proof.
           by (intros _; right; exact Hcp);
         assert (P7 : kept s S' n)
       end.
-      { unfold kept. rewrite Rn_setR_same. cbn [seen ndone ph]. rewrite Rn_clear_cp, Hph.
-        repeat split; auto; intros; discriminate. }
+      { unfold kept. rewrite Rn_setR_same. cbn [seen ndone ph pend]. rewrite Rn_clear_cp, Hph.
+        repeat split; auto; try (intros; discriminate).
+        exists (fun j => negb (jfin s j)). exact Eu0. }
       apply RE_actor; auto.
       * rewrite Hph. discriminate.
       * rewrite Rn_setR_same. discriminate.
@@ -475,8 +504,8 @@ Proof.
         by (intros _; right; exact Hcp);
       assert (P7 : kept s S' n)
     end.
-    { unfold kept. rewrite Rn_setR_same. cbn [seen ndone ph]. rewrite Rn_clear_cp, Hph.
-      repeat split; auto; try (intros; discriminate). }
+    { unfold kept. rewrite Rn_setR_same. cbn [seen ndone ph pend]. rewrite Rn_clear_cp, Hph.
+      repeat split; auto; try (intros; discriminate); try (exists (fun _ => true); apply filter_true_id). }
     apply RE_actor; auto.
     + rewrite Hph. discriminate.
     + rewrite Rn_setR_same. cbn [ph]. rewrite Rn_clear_cp, Hph. discriminate.
@@ -508,8 +537,8 @@ Proof.
       { unfold sd_inline in Ein. destruct (ph (Rn s n)) as [| | |w| |]; try discriminate. exists w. reflexivity. }
       destruct Hphs as [w Hw].
       assert (P7 : kept s (fst (react_shut_cancel c n (setR s0 n v))) n).
-      { unfold kept. rewrite Ephn, ER, Rn_setR_same. unfold v, s0. cbn [seen ndone]. rewrite Rn_clear_cp, Hw.
-        repeat split; auto; try (intros; discriminate). }
+      { unfold kept. rewrite Ephn, ER, Rn_setR_same. unfold v, s0. cbn [seen ndone pend]. rewrite Rn_clear_cp, Hw.
+        repeat split; auto; try (intros; discriminate); try (exists (fun _ => true); apply filter_true_id). }
       apply RE_actor; auto.
       * rewrite Ephn. exact Hph.
       * intros _. left. rewrite EJ, Ephn. destruct (st_clear_cp s n) as [B _]. unfold s0. rewrite B, Hst, Hw.
@@ -538,6 +567,7 @@ Proof.
     + split_guards Hg. destruct (run_alive_false _ _ _ G) as (Hs & Hn & Hr).
       apply reff_end_cancelled; auto.
       * intros Hn0. apply Hr. exact Hn0.
+      * destruct (ph (Rn s n)); discriminate.
       * destruct (ph (Rn s n)); discriminate.
     + cbn [forallb guards app outs_guards] in Hg. apply andb_true_iff in Hg. destruct Hg as [G1 _].
       apply reff_shut. eapply sd_thread_inline; eauto.
